@@ -77,6 +77,18 @@ def consistency(f, kind, bad, rep, maxdirs=40):
                 got = _names(f.scandir(d, page=(a, b)))
                 if got != base[a:b]:
                     bad.append(("page_is_slice", "%r page=(%d,%d): %r vs %r" % (d, a, b, got, base[a:b])))
+        # filterdir: a page is the slice of the *filtered* listing
+        for kw in ({"files": ["*a*"]}, {"dirs": ["*"], "exclude_files": ["*"]}, {"exclude_dirs": ["*"]}, {"exclude_files": ["*.e", "a*"]}):
+            try:
+                full = _names(f.filterdir(d, **kw))
+                for a in range(0, min(len(full), 2) + 2):
+                    for b in range(a, min(len(full), 3) + 2):
+                        got = _names(f.filterdir(d, page=(a, b), **kw))
+                        rep.evaluations += 1
+                        if got != full[a:b]:
+                            bad.append(("filterdir_page_is_slice", "%r %r page=(%d,%d): %r vs %r" % (d, kw, a, b, got, full[a:b])))
+            except Exception as e:  # noqa
+                bad.append(("filterdir_raises", "%r %r: %r" % (d, kw, e)))
         for ns in NS_SETS:
             try:
                 infos = {i.name: i for i in f.scandir(d, namespaces=list(ns))}
@@ -250,6 +262,8 @@ def run(rep, tier, seed, deep=False):
                 b = H.make_backend(kind)
                 try:
                     snap = H.snapshot(b.fs)
+                    if snap is None:
+                        check_state(rep, kind, b.fs, {"history": [], "note": "initial state could not be snapshotted"})
                     ops = []
                     for i in range(n_ops):
                         op = H.gen_op(rng, snap or [], H.NAMES)
@@ -265,6 +279,9 @@ def run(rep, tier, seed, deep=False):
                                 pass
                         snap = H.snapshot(b.fs)
                         if snap is None:
+                            # the generic snapshot walker could not make sense of the filesystem:
+                            # evaluate the query equalities on it before giving up on this history
+                            check_state(rep, kind, b.fs, {"history": ops[-8:], "note": "state could not be snapshotted"})
                             break
                         if i % every == every - 1 or i == n_ops - 1:
                             rep.nontrivial(kind, H.enc_tree(snap))
